@@ -85,7 +85,9 @@ def h_section_filter(ctx):
         ctx.check('C10.section_filter.raises_nothing', False, 'property', meta={'escaping': e.cls})
         return
     base = DictOf(gv.expr)
-    variables = Merged(base, LocalVars(svars.expr, txns.expr, nm.expr, base, pd.expr)) if has_locals else base
+    # the variables a view's filter sees: what evaluate_variables returns for the view's own variables on top of the globals (its contract, props/C10_variables.py:
+    # the globals, plus each local under its looked-up name, minus any local that could not be evaluated), or just the globals
+    variables = LocalVars(svars.expr, txns.expr, nm.expr, base, pd.expr) if has_locals else base
     c = Ctx(txns.expr, nm.expr, variables, pd.expr)
     f = fast.expr if has_ast else fexpr.expr
     want = z3.And(z3.Not(EvalErr(f, c)), truthy(EvalVal(f, c)))
